@@ -27,6 +27,10 @@ Lemma trigger_phase m c : c_phase (c_trigger m c) = c_phase c.
 Proof. unfold c_trigger. destruct (c_blocked c); [|destruct (c_events c)]; reflexivity. Qed.
 Lemma trigger_lost m c : c_lost (c_trigger m c) = c_lost c.
 Proof. unfold c_trigger. destruct (c_blocked c); [|destruct (c_events c)]; reflexivity. Qed.
+Lemma do_read_unrouted c : c_unrouted (c_do_read c) = c_unrouted c.
+Proof. unfold c_do_read. destruct (c_closed c); [|destruct (c_events c)]; reflexivity. Qed.
+Lemma trigger_unrouted m c : c_unrouted (c_trigger m c) = c_unrouted c.
+Proof. unfold c_trigger. destruct (c_blocked c); [|destruct (c_events c)]; reflexivity. Qed.
 
 (* goals about the client table after the end of s was replaced *)
 Ltac cl_tac s :=
@@ -56,7 +60,7 @@ Ltac qo_tac O1 O0 :=
 
 Lemma AInv_step x a x' : AInv x -> (lost x = false -> LInv x) -> step current x a = Some x' -> AInv x'.
 Proof.
-  intros [AF AL O1 O0] L H. destruct a; simpl in H.
+  intros [AF AL O1 O0 UR] L H. destruct a; simpl in H.
   - (* COpen *)
     destruct (lost x) eqn:Hl; try discriminate. destruct (lookup s (cstreams x)) eqn:CV; try discriminate.
     inversion H; subst; clear H. destruct (L eq_refl) as [LF LL]. destruct (LF _ CV) as [F1 F2 F3 F4 F5 F6 F7 F8].
@@ -67,8 +71,10 @@ Proof.
       destruct (Nat.eqb_spec s s0); [subst; lia|lia].
     + intros s0 HS. specialize (O0 s0 HS). unfold c2s in *. simpl. rewrite app_assoc, cnt_app. simpl.
       destruct (Nat.eqb_spec s s0); [subst; unfold has_srv in *; simpl in *; congruence|lia].
+    + cl_tac s. reflexivity.
   - (* CWrite *) destr H; constructor; simpl; try (cl_tac s; try (intros; discriminate); eauto); try qo_tac O1 O0.
-  - (* CRead *) destr H; constructor; simpl; try (cl_tac s; rewrite ?do_read_phase, ?do_read_lost; eauto);
+  - (* CWriteBad *) destr H; constructor; simpl; try (cl_tac s; try (intros; discriminate); eauto); try qo_tac O1 O0.
+  - (* CRead *) destr H; constructor; simpl; try (cl_tac s; rewrite ?do_read_phase, ?do_read_lost, ?do_read_unrouted; eauto);
       try qo_tac O1 O0.
   - (* CClose *) destr H; constructor; simpl; try (cl_tac s; try (intros; discriminate); eauto); try qo_tac O1 O0.
   - (* CUnary *) destr H; constructor; simpl; eauto; try qo_tac O1 O0.
@@ -85,6 +91,8 @@ Proof.
       intros E'. inversion E'; subst. simpl. eauto.
     + intros s0. specialize (O1 s0). unfold c2s in *. simpl. rewrite cnt_app in *. simpl. lia.
     + intros s0 HS. specialize (O0 s0 HS). unfold c2s in *. simpl. rewrite cnt_app in *. simpl. lia.
+    + intros s0 c0. rewrite lookup_map. destruct (lookup s0 (cstreams x)) eqn:E; simpl; try discriminate.
+      intros E'. inversion E'; subst. simpl. eauto.
   - (* STeardown *)
     destruct (lost x); try discriminate. destruct (sdecq x) eqn:D; try discriminate.
     destruct (torn x); try discriminate. inversion H; subst; clear H.
@@ -146,6 +154,16 @@ Proof.
       destruct (L eq_refl) as [LF LL]. pose proof (lv_op_some _ _ _ (LL _ _ E) P) as K1.
       unfold has_srv, s2c in K1. rewrite SV in K1. rewrite K1; auto.
     + apply ack_first_snoc_other; auto. intros m' F. inversion F. congruence.
+  - (* SWriteBad *)
+    destruct (lookup s (sstreams x)) as [sv|] eqn:SV; try discriminate.
+    destruct (negb (s_started sv)); try discriminate.
+    assert (HU : forall s0 v, (if lookup s0 (update s v (sstreams x)) then true else false) = true ->
+               cnt (is_qopen s0) (c2s x) = 0).
+    { intros s0 v HS. apply O0. apply (has_srv_update s s0 v); [congruence|exact HS]. }
+    destruct (s_closed sv) eqn:K; inversion H; subst; clear H; constructor; simpl; eauto;
+      try (intros s0 HS; exact (HU _ _ HS)).
+    intros s0 c0 E P. specialize (AF _ _ E P). unfold s2c in *. simpl. destruct (lost x) eqn:Hl; auto.
+    rewrite app_assoc. apply ack_first_snoc_other; auto. intros; discriminate.
   - (* SRead *)
     destruct (lookup s (sstreams x)) as [sv|] eqn:SV; try discriminate.
     destruct (negb (s_started sv)); try discriminate. inversion H; subst; clear H.
@@ -153,12 +171,14 @@ Proof.
     intros s0 HS. apply O0. apply (has_srv_update s s0 (s_do_read sv)); [congruence|exact HS].
   - (* CDecode *)
     destruct x as [cs ss sg wc ws sd sq cd cq ud lo tn]; simpl in *.
-    destruct cd as [|f r]; try discriminate. destruct f as [s|s m|s|id].
+    destruct cd as [|f r]; try discriminate. destruct f as [s|s m|s|id|s].
     + (* PAck *)
-      destruct (lookup s cs) as [c|] eqn:CV; [destruct (c_phase c) eqn:P|]; inversion H; subst; clear H;
+      destruct (lookup s cs) as [c|] eqn:CV;
+        [pose proof (UR _ _ CV) as URc; destruct (c_phase c) eqn:P; rewrite ?URc in H|]; inversion H; subst; clear H;
         constructor; simpl; eauto; try (cl_tac s; try (intros; discriminate); eauto; try af_other AF); try af_head AF s.
     + (* PMsg *)
-      destruct (lookup s cs) as [c|] eqn:CV; [destruct (c_phase c) eqn:P|]; inversion H; subst; clear H.
+      destruct (lookup s cs) as [c|] eqn:CV;
+        [pose proof (UR _ _ CV) as URc; destruct (c_phase c) eqn:P; rewrite ?URc in H|]; inversion H; subst; clear H.
       * exfalso. specialize (AF _ _ CV P). unfold s2c in AF. simpl in AF. rewrite Nat.eqb_refl in AF. exact AF.
       * constructor; simpl; eauto; af_head AF s.
       * constructor; simpl; eauto; af_head AF s.
@@ -168,10 +188,15 @@ Proof.
       destruct (lookup s cs) as [c|] eqn:CV; inversion H; subst; clear H;
         constructor; simpl; eauto; try (cl_tac s; try (intros; discriminate); eauto; try af_other AF).
     + (* PUnary *) inversion H; subst; clear H. constructor; simpl; eauto.
+    + (* PErr *)
+      destruct (lookup s cs) as [c|] eqn:CV;
+        [pose proof (UR _ _ CV) as URc; destruct (c_phase c) eqn:P; rewrite ?URc in H|]; inversion H; subst; clear H;
+        constructor; simpl; eauto; try (cl_tac s; try (intros; discriminate); eauto; try af_other AF); try af_head AF s.
   - (* CDeliver *)
     destruct (cstrq x) as [|[s m] r] eqn:Q; try discriminate.
     destruct (lookup s (cstreams x)) as [c|] eqn:CV; inversion H; subst; clear H;
       constructor; simpl; eauto.
     + cl_tac s. rewrite trigger_phase. eauto.
     + cl_tac s. rewrite trigger_lost. eauto.
+    + cl_tac s. rewrite trigger_unrouted. eauto.
 Qed.
